@@ -747,6 +747,7 @@ func (e *Env) RParenKeep() {
 	pkg := e.Prog.Pkg(load.PkgDecorator)
 	info := pkg.TypesInfo
 	c := e.Sib.Ctx[load.PkgDecorator]
+	restoreHelpers := e.restoreOnly(pkg)
 	n := 0
 	type clearing struct {
 		cond string
@@ -756,7 +757,8 @@ func (e *Env) RParenKeep() {
 	}
 	var cs []clearing
 	for _, fd := range load.AllFuncDecls(pkg) {
-		if fd.Body == nil || !strings.HasSuffix(e.Prog.File(fd.Pos()), "restorer.go") {
+		// the restorer's hand-written code (the generated converters copy the flag of the node)
+		if fd.Body == nil || !(isRestorePath(fd) || restoreHelpers[fd]) || strings.HasSuffix(e.Prog.File(fd.Pos()), "-generated.go") {
 			continue
 		}
 		var stores []*ast.AssignStmt
